@@ -7,7 +7,8 @@ PROPERTY = "C03"
 LEVEL = "exploration"
 RULE = ("Exhaustive part: every 1-byte buffer and (thorough: every; quick: 8192 seed-strided) 2-byte buffer x every "
         "(p, n) with p+n <= 8*len, both read methods. Generated part (Hypothesis): buffers of 3..64 bytes from six "
-        "pattern classes x every p mod 8 x widths 0..72, and widths up to 1e5 bits in 16 kB buffers. Oracle: "
+        "pattern classes x every p mod 8 x widths 0..72, and widths up to 1e5 bits in 16 kB buffers; plus sequences of "
+        "2..12 reads on ONE object with the cursor moved by the reads and by assignment in between. Oracle: "
         "int(bitstring[p:p+n], 2), its big-endian ceil(n/8)-byte form, cursor == p+n, buffer bytes and hash unchanged. "
         "Non-trivial: n > 0; distinct by (buffer, p, n) for enumerated cases (distinct by construction) and by hash of "
         "(buffer, p, n) for generated ones.")
@@ -139,12 +140,68 @@ def part_generated(ctx, examples):
     hyp_run(ctx, gen_case(), check_generated, examples)
 
 
+# ---- a sequence of reads on ONE object, the cursor moved by the reads and by assignment in between: every read must
+# still be a pure function of (buffer, cursor, width) – nothing may be remembered from an earlier read
+
+@st.composite
+def gen_sequence(draw):
+    length = draw(st.one_of(st.integers(0, 4), st.integers(1, 24)))
+    buf = draw(st.one_of(st.binary(min_size=length, max_size=length), st.just(b"\xff" * length)))
+    total = 8 * length
+    ops = []
+    for _ in range(draw(st.integers(2, 12))):
+        kind = draw(st.sampled_from(["int", "bytes", "bytes"]))
+        n = draw(st.one_of(st.integers(0, min(total, 16)), st.integers(0, total), st.just(total)))
+        mode = draw(st.sampled_from(["set", "set", "continue"]))
+        p = draw(st.integers(0, total - n)) if total - n > 0 else 0
+        ops.append({"k": kind, "n": n, "set": p if mode == "set" else None})
+    return {"buf": buf.hex(), "ops": ops}
+
+
+def check_sequence(ctx, case):
+    packets = _lib()
+    buf = bytes.fromhex(case["buf"])
+    bits = bits_of(buf)
+    raw = packets.RawPacketData(buf)
+    ctx.count()
+    ctx.cls("sequence of reads on one object")
+    ctx.nontrivial(case)
+    ctx.sample("sequence", case)
+    pos = 0
+    for i, op in enumerate(case["ops"]):
+        n = op["n"]
+        if op["set"] is not None:
+            raw.pos = pos = op["set"]
+        if pos + n > len(bits):
+            raw.pos = pos = len(bits) - n   # keep the read inside the buffer (the property's precondition)
+        expected = int(bits[pos:pos + n] or "0", 2)
+        what = f"op {i} of {case['ops']} on {buf.hex()}: {'read_as_int' if op['k'] == 'int' else 'read_as_bytes'}({n}) at pos {pos}"
+        try:
+            got = raw.read_as_int(n) if op["k"] == "int" else raw.read_as_bytes(n)
+        except Exception as e:
+            return ctx.fail("sequence-raised", f"{what} raised {type(e).__name__}: {e}", case,
+                            bucket="sequence-raised:" + type(e).__name__)
+        exp = expected if op["k"] == "int" else expected.to_bytes((n + 7) // 8, "big")
+        if (bytes(got) if op["k"] == "bytes" else got) != exp:
+            return ctx.fail("sequence-value", f"{what} = {got!r}, expected {exp!r}", case)
+        pos += n
+        if raw.pos != pos:
+            return ctx.fail("sequence-cursor", f"{what}: cursor {raw.pos}, expected {pos}", case)
+    if bytes(raw) != buf:
+        return ctx.fail("buffer-modified", "buffer changed by a sequence of reads", case)
+    return None
+
+
+def part_sequence(ctx, examples):
+    hyp_run(ctx, gen_sequence(), check_sequence, examples)
+
+
 def replay_any(ctx, case):
     check_generated(ctx, case)
 
 
-PARTS = {"exhaustive": part_exhaustive, "generated": part_generated}
-REPLAY = {"exhaustive": replay_any, "generated": replay_any}
+PARTS = {"exhaustive": part_exhaustive, "generated": part_generated, "sequence": part_sequence}
+REPLAY = {"exhaustive": replay_any, "generated": replay_any, "sequence": check_sequence}
 KNOWN = {}
 
 
@@ -156,12 +213,16 @@ def plan(tier, seed):
             tasks.append(("exhaustive", {"nbytes": 2, "lo": i * step, "hi": (i + 1) * step}))
         for _ in range(16):
             tasks.append(("generated", {"examples": 6000}))
+        for _ in range(8):
+            tasks.append(("sequence", {"examples": 20000}))
     else:
         # 8192 buffers: stride 8 with a seed-dependent offset, all (p, n) kept
         step = 65536 // 16
         for i in range(16):
             tasks.append(("exhaustive", {"nbytes": 2, "lo": i * step, "hi": (i + 1) * step,
                                          "stride": 8, "offset": seed % 8}))
-        for _ in range(16):
+        for _ in range(12):
             tasks.append(("generated", {"examples": 1500}))
+        for _ in range(4):
+            tasks.append(("sequence", {"examples": 2500}))
     return tasks
